@@ -136,6 +136,72 @@ def fix_zero_weight_cells(case):
                 case["w"][V[0]] = 1.0
 
 
+# ----------------------------------------------------------------------------------------------
+# 'huge' stream: more rows than any internal block size (N in 65 537 .. 150 000); oracle only, no Coq literal
+# ----------------------------------------------------------------------------------------------
+
+HUGE_BLOCK = 1 << 16
+
+
+def gen_huge(rng, kind, ftype="float", weighted=False, ign=None):
+    """compact, replayable description of a huge case; `expand_huge` rebuilds the full case from it"""
+    matrix = kind in ("covariance", "corrcoef")
+    nd = rng.choice([0, 1, 1, 2, 2])
+    return {"seed": rng.randrange(1 << 30), "kind": kind, "ftype": ftype,
+            "N": rng.randint(HUGE_BLOCK + 1, 90000 if matrix else 150000),
+            "exts": [rng.randint(2, 4) for _ in range(nd)] if nd < 2 else [rng.randint(2, 3), rng.randint(2, 4)],
+            "K": 2 if matrix else None,
+            "wkind": rng.choice(["arr", "pair"]) if weighted else "none",
+            "ign": (rng.random() < 0.5) if ign is None else ign,
+            "nmiss": rng.randint(2, 5), "p": rng.choice(PROBS + (round(rng.random(), 3),)),
+            "dimdtype": rng.choice(["int64", "int8", "uint8", "int32"])}
+
+
+def expand_huge(h):
+    import random
+    rng = random.Random(h["seed"])
+    N, exts, K, ftype = h["N"], h["exts"], h["K"], h["ftype"]
+    ncol = 1 if K is None else K
+    dims = [[rng.randrange(e) for _ in range(N)] for e in exts]
+    den = 4 if ftype == "float" else 1
+    fact = [[rng.randint(-32, 32) / den for _ in range(ncol)] for _ in range(N)]
+    fvalid = [[True] * ncol for _ in range(N)]
+    # a handful of missing rows: at least one in the first 65536-row block and one beyond it, so that the cell of a
+    # missing row always has (tens of thousands of) valid rows in OTHER blocks
+    miss = [rng.randrange(HUGE_BLOCK), rng.randrange(HUGE_BLOCK, N)] + [rng.randrange(N) for _ in range(h["nmiss"] - 2)]
+    for r in miss:
+        fvalid[r][rng.randrange(ncol)] = False
+    fform = "pair" if ftype == "int" else rng.choice(["nan", "pair"])
+    hidden = [[(rng.choice([float("nan"), float("inf"), -1e300, 12345.0]) if ftype == "float" else rng.choice([-99999, 77777]))
+               if not fvalid[r][k] else 0 for k in range(ncol)] for r in range(N)]
+    w = wvalid = whidden = None
+    if h["wkind"] != "none":
+        w = [rng.choice([0.5, 1.0, 2.0, 4.0]) for _ in range(N)]
+        wvalid = [True] * N
+        for r in (rng.randrange(HUGE_BLOCK), rng.randrange(HUGE_BLOCK, N)):
+            if rng.random() < 0.5:
+                wvalid[r] = False
+        whidden = [7.0 if v else rng.choice([float("nan"), 1e300, 0.0, 7.0]) for v in wvalid]
+    return {"kind": h["kind"], "N": N, "exts": exts, "dims": dims, "dimdtype": h["dimdtype"], "K": K, "ftype": ftype,
+            "fform": fform, "offset": 0, "fact": fact, "fvalid": fvalid, "fhidden": hidden, "wkind": h["wkind"], "w": w,
+            "wvalid": wvalid, "whidden": whidden, "wpow": 0, "wpow_kind": None, "ign": h["ign"], "p": h["p"],
+            "sentinel": 0 if ftype != "float" else -7.0, "huge": h}
+
+
+def huge_plan(rng, tier):
+    """every statistic once per quick run (min/max under PROPAGATION for float, int and datetime facts - the rule that a
+    block-wise reduction can get wrong - plus one under ignore), three rounds in the thorough tier"""
+    plan = []
+    for _ in range(1 if tier == "quick" else 3):
+        mm = [rng.choice(["min", "max"]) for _ in range(4)]
+        plan += [gen_huge(rng, mm[0], "float", ign=False), gen_huge(rng, mm[1], "int", ign=False),
+                 gen_huge(rng, mm[2], "datetime", ign=False), gen_huge(rng, mm[3], rng.choice(["float", "int", "datetime"]), ign=True),
+                 gen_huge(rng, "stddev", rng.choice(["float", "int"]), weighted=rng.random() < 0.5),
+                 gen_huge(rng, "quantile", "float", weighted=False), gen_huge(rng, "quantile", "float", weighted=True),
+                 gen_huge(rng, "covariance", "float", weighted=rng.random() < 0.5), gen_huge(rng, "corrcoef", "float")]
+    return plan
+
+
 def exact_expected(case):
     """is the double result of the real code the exact rational result (dyadic inputs)?"""
     k = case["kind"]
@@ -463,7 +529,11 @@ def run(ctx):
                 "about 30 % of the weighted cases (stddev, weighted quantile, covariance) are weight-SCALE cases: all weights, or the weights of "
                 "the rows of one cell ('tiny / huge stratum'), multiplied by 2^e, e in {-60,-40,-20,20,40} (exact in float64; the unchanged "
                 "code has no absolute threshold on weight sums in these three statistics, so no scale is excluded); "
-                "a case is distinct by its whole input and non-trivial when some output cell is valid")
+                "plus a 'huge' stream judged by the model-free oracle ONLY (no Coq literal; counted in huge_cases_oracle_only): per round "
+                "(1 quick, 3 thorough) nine cases with N in 65 537..150 000 rows (more than any 65536-row block), 0-2 dimensions of "
+                "2-4 categories, 2-5 missing rows of which one lies in the first 65536-row block and one beyond it: min/max under "
+                "propagation for float, int and datetime facts and once under ignore, stddev, unweighted and weighted quantile, "
+                "covariance, correlation; a case is distinct by its whole input and non-trivial when some output cell is valid")
     ctx.trusted = list(core.STD_TRUSTED) + [
         "NumPy kernels modelled from their documentation, tied only by the correspondence: bincount, boolean-mask indexing, "
         "argsort (NaN last, insertion sort for n<=16), cumsum, digitize, diff, quantile/nanquantile(method=linear), cov, corrcoef, amin/amax",
@@ -515,7 +585,22 @@ def run(ctx):
                 results.append(res)
                 if any(c[0] == "val" for c in res["nan"]):
                     ctx.nontrivial.add(hash(case_key(case)))
-    ctx.evaluations = n_inputs * len(KINDS)
+    # ---- huge stream: implementation + model-free oracle only (no Coq literal: 10^5 rows per case) ----
+    nhuge = {}
+    for h in huge_plan(ctx.rng, ctx.tier):
+        case = expand_huge(h)
+        res = run_impl(catii, np, case)
+        for sig, text in judge_case(case, res):
+            wrong.setdefault(sig, []).append((case, text))
+        hk = "%s %s %s %s %dd" % (h["kind"], h["ftype"], "weighted" if h["wkind"] != "none" else "unweighted",
+                                  "ignore" if h["ign"] else "propagate", len(h["exts"]))
+        nhuge[hk] = nhuge.get(hk, 0) + 1
+        if not res["exc"] and any(c[0] == "val" for c in res["nan"]):
+            ctx.nontrivial.add(hash(json.dumps(h, sort_keys=True)))
+        del case, res
+    ctx.coverage["huge_cases_oracle_only"] = sum(nhuge.values())
+    ctx.coverage["huge_cases"] = nhuge
+    ctx.evaluations = n_inputs * len(KINDS) + sum(nhuge.values())
     ctx.coverage["input_distribution"] = {" ".join(map(str, k)): v for k, v in sorted(dist.items())}
     ctx.coverage["situations"] = feats
     ctx.coverage["large_offset_cases"] = dict(sorted(offs.items()))
@@ -531,12 +616,14 @@ def run(ctx):
 
     # ---- verdict ----
     for sig, lst in sorted(wrong.items()):
+        lst.sort(key=lambda ct: ct[0]["N"])          # prefer a small witness when one exists
         case, text = lst[0]
-        small = shrink(catii, np, case, sig)
+        small = case if case.get("huge") else shrink(catii, np, case, sig)
         r2 = run_impl(catii, np, small)
         t2 = [t for s, t in judge_case(small, r2) if s == sig]
         ctx.report(sig, (t2 or [text])[0], {
-            "case": small, "observed": {k: repr(r2.get(k)) for k in ("nan", "pair", "exc")},
+            "case": ({"huge": small["huge"], "note": "expand with harness.props.c18.expand_huge(case['huge']) (deterministic)"}
+                     if small.get("huge") else small), "observed": {k: repr(r2.get(k)) for k in ("nan", "pair", "exc")},
             "expected": repr(orc.expected(with_fractions(small))), "count": len(lst),
             "how": "xcube(dims, interacting_shape=exts).%s(...) in both report formats vs the statistic of the rows of each cell" % small["kind"]})
     if not wrong and (res.failing or res.errors or not pr["ok"]):
@@ -565,6 +652,8 @@ def replay(ctx, path):
     ctx.evaluations = len(todo)
     ctx.nontrivial.update(range(max(2, len(todo))))
     for case in todo:
+        if "huge" in case and "fact" not in case:
+            case = expand_huge(case["huge"])
         res = run_impl(catii, np, case)
         bad = judge_case(case, res)
         print("%s exts=%s ign=%s weights=%s -> nan format %r ; pair format %r ; exc %r" % (
@@ -572,4 +661,5 @@ def replay(ctx, path):
         print("  textbook per cell:", orc.expected(with_fractions(case)))
         for sig, text in bad:
             print("  STILL FAILS", sig, text)
-            ctx.report(sig, "replayed failing input still fails: " + text, {"case": case})
+            ctx.report(sig, "replayed failing input still fails: " + text,
+                       {"case": {"huge": case["huge"]} if case.get("huge") else case})
